@@ -10,7 +10,7 @@ ops (the same alphabet as coq/Model/SessionSub.v `op`):
   ["subscribed", req, sid]    onMessage(SUBSCRIBED)      ["unsubscribed", req]    onMessage(UNSUBSCRIBED)
   ["revoked", sid]            onMessage([35, 0, {"subscription": sid, "reason": ...}])
   ["error", rtype, req, uri]  onMessage([8, rtype, req, {}, "wamp.error.e<uri>"])
-  ["event", {sub,pub,args,kwargs,publisher,topic,retained,shape}]        ["lose"]  transport lost
+  ["event", {sub,pub,args,kwargs,publisher,topic,retained,authid,authrole,txhash,ff,shape}]   (ff = forward_for hops)        ["lose"]  transport lost
 H = {"det": key|null, "sig": {"fixed": n, "va": bool, "kwo": [key,..], "vk": bool}, "check": bool, "ann": null|"int"|"str",
      "beh": ["ret"] | ["raise", tag] | ["unsub", [label,..]]}
     a REAL function  def h([self,] q<label>_0[: ann], .., q<label>_(n-1) [, *args] [, k=.., ..] [, **kw])  is built for every handler and
@@ -96,6 +96,10 @@ def wire_of(m):
         if e.get("publisher") is not None: det["publisher"] = e["publisher"]
         if e.get("topic") is not None: det["topic"] = f"com.t{e['topic']}"
         if e.get("retained") is not None: det["retained"] = e["retained"]
+        if e.get("authid") is not None: det["publisher_authid"] = e["authid"]
+        if e.get("authrole") is not None: det["publisher_authrole"] = e["authrole"]
+        if e.get("txhash") is not None: det["transaction_hash"] = e["txhash"]
+        if e.get("ff") is not None: det["forward_for"] = json.loads(json.dumps(e["ff"]))
         w = [36, e["sub"], e["pub"], det]
         kw = {KEYS[int(k_)]: v for k_, v in e["kwargs"].items()}
         if kw or e.get("shape") == "both":
@@ -188,7 +192,10 @@ class Runner:
             if isinstance(v, EventDetails):
                 owner = label_of_fn(v.subscription.handler.fn)
                 out[k] = {"$det": {"owner": owner, "sub": v.subscription.id, "pub": v.publication,
-                                   "publisher": v.publisher, "topic": topic_no(v.topic), "retained": v.retained}}
+                                   "publisher": v.publisher, "topic": topic_no(v.topic), "retained": v.retained,
+                                   "authid": v.publisher_authid, "authrole": v.publisher_authrole,
+                                   "txhash": v.transaction_hash, "ff": json.loads(json.dumps(v.forward_for)),
+                                   "enc_algo": v.enc_algo}}
             elif isinstance(v, (int, str, bool)) or v is None:
                 out[k] = v
             else:
